@@ -38,7 +38,7 @@ META = {
     'assumptions': ['handlers are atomic (reactor)'],
     'decided': ['D1 wire constants', 'D2 RequestName decision table',
                 'D3 release / disconnect cleanup; the successor is told on every '
-                'path on which an owner leaves a non-empty queue', 'D4 no duplicates',
+                'path on which an owner leaves a non-empty queue', 'D4 no duplicates; an old waiting entry is removed before the caller is written to the head',
                 'D5 lookups read the same table'],
     'undecided': ['step-by-step equivalence with a reference model over '
                   'histories', 'exact order of the emitted signals'],
@@ -294,6 +294,33 @@ def request_table(ctx):
                        'the caller is put into the queue of the name '
                        'without a check that it is not already waiting '
                        'there: a client that asks twice is queued twice')
+        # list.remove drops the FIRST occurrence: removing the caller's old
+        # waiting entry after the caller was written to the head removes the
+        # head instead (the next waiter silently becomes owner)
+        head_at = None
+        evs = list(iter_events(p.trace))
+        for i, ev in enumerate(evs):
+            if (ev[0] == 'setsub' and _is_queue(ev[1], table, name) and
+                    ev[2] == C(0)) or (
+                    ev[0] == 'call' and kind(ev[1][2]) == 'attr' and
+                    _is_queue(ev[1][2][1], table, name) and
+                    ev[1][2][2] == 'insert' and ev[1][3] and
+                    ev[1][3][0] == C(0)):
+                if head_at is None:
+                    head_at = i
+            if ev[0] == 'call' and kind(ev[1][2]) == 'attr' and \
+                    _is_queue(ev[1][2][1], table, name) and \
+                    ev[1][2][2] == 'remove' and head_at is not None:
+                ctx.ob('C13.D4', rq.qualname, 'old-entry-removed-before-'
+                       'head-insert', False,
+                       'queue.remove(...) runs after the caller was written '
+                       'to the head of the queue: it removes the first '
+                       'occurrence - the new head - so a waiter that stood '
+                       'before the caller becomes owner without being told')
+        if head_at is not None:
+            ctx.ob('C13.D4', rq.qualname, 'old-entry-removed-before-'
+                   'head-insert', True, 'no removal after the head insert',
+                   nontrivial=False)
         # caller bookkeeping: busNames[name] on the connection set whenever
         # the caller ends up in the queue
         stays = effect in ('head', 'queued') or (
